@@ -39,7 +39,7 @@ theorem inv_eraseOrphan {s : State} (h : Inv s) {q : Nat} {Q : Rep} (ho : Orphan
   have hdisj : ∀ c, c ∈ Q.cbs → ∀ r R, s.reps r = some R → c ∈ R.cbs → r = q :=
     fun c hc1 r R hR hc2 => h.regUniq r R q Q c hR hq hc2 hc1
   refine { repAlive := ?_, repUniq := ?_, connReg := ?cr, cbsConn := ?cc, regUniq := ?_, cbsNodup := ?_,
-           parentOk := ?_, trkReg := ?_, trkEnt := ?_, trkNodup := ?_, refOk := ?_, ownOk := ?_, repBound := ?_ }
+           parentOk := ?_, trkReg := ?_, trkEnt := ?_, trkNodup := ?_, refOk := ?_, ownOk := ?_, nestOk := ?_, anonBound := ?_, repBound := ?_ }
   case cr =>
     intro c w hcw
     rw [hc c] at hcw
@@ -86,7 +86,7 @@ theorem inv_adoptMod {s : State} (h : Inv s) {d n : Nat} {N : Rep} (hd : repOf s
   have hnreg : ∀ r R c, s.reps r = some R → c ∈ R.cbs → r ≠ n := by
     intro r R c hR hm he; subst he; rw [hn] at hR; cases hR; rw [hnc] at hm; simp at hm
   refine { repAlive := ?_, repUniq := ?_, connReg := ?cr, cbsConn := ?cc, regUniq := ?_, cbsNodup := ?_,
-           parentOk := ?_, trkReg := ?_, trkEnt := ?_, trkNodup := ?_, refOk := ?_, ownOk := ?_, repBound := ?_ }
+           parentOk := ?_, trkReg := ?_, trkEnt := ?_, trkNodup := ?_, refOk := ?_, ownOk := ?_, nestOk := ?_, anonBound := ?_, repBound := ?_ }
   case cr =>
     intro c w hcw
     rw [conns_modSlot] at hcw
@@ -136,7 +136,17 @@ theorem inv_switchRep {s : State} (h : Inv s) {d n q : Nat} {N Q : Rep} (hq : re
     unfold switchRep; rw [conns_modSlot, conns_modRep]
   refine ⟨?_, horq, hrepd⟩
   refine { repAlive := ?_, repUniq := ?_, connReg := ?cr, cbsConn := ?cc, regUniq := ?_, cbsNodup := ?_,
-           parentOk := ?po, trkReg := ?_, trkEnt := ?_, trkNodup := ?_, refOk := ?_, ownOk := ?_, repBound := ?_ }
+           parentOk := ?po, trkReg := ?_, trkEnt := ?_, trkNodup := ?_, refOk := ?ro, ownOk := ?_, nestOk := ?_, anonBound := ?_, repBound := ?_ }
+  case ro =>
+    apply refOk_transfer h
+    · intro r R' hR'
+      unfold switchRep at hR'
+      rw [reps_modSlot] at hR'
+      exact modRep_fn_inv (g := fun N => { N with parent := Q.parent }) (fun _ => rfl) hR'
+    · intro v V hV
+      unfold switchRep
+      rw [slots_modSlot, slots_modRep, hV]
+      by_cases hvd : v = d <;> simp [hvd]
   case cr =>
     intro c w hcw
     rw [hconns] at hcw
@@ -306,7 +316,7 @@ theorem inv_unhold {s : State} (h : Inv s) {v r : Nat} (hv : repOf s v = some r)
     · exact .inl (by rw [hrepo w hwv]; exact hw)
   refine ⟨?_, horq⟩
   refine { repAlive := ?_, repUniq := ?_, connReg := ?cr, cbsConn := ?cc, regUniq := ?_, cbsNodup := ?_,
-           parentOk := ?po, trkReg := ?_, trkEnt := ?_, trkNodup := ?_, refOk := ?_, ownOk := ?_, repBound := ?_ }
+           parentOk := ?po, trkReg := ?_, trkEnt := ?_, trkNodup := ?_, refOk := ?_, ownOk := ?_, nestOk := ?_, anonBound := ?_, repBound := ?_ }
   case cr =>
     intro c w hcw
     rw [conns_modSlot] at hcw
@@ -334,7 +344,7 @@ theorem inv_unhold {s : State} (h : Inv s) {v r : Nat} (hv : repOf s v = some r)
 /-- **`delete_rep_with_check()` keeps the state well-formed, for every variable** — also one whose representation
     stores the functor that keeps the variable itself alive (finding F12): the variable has let go of the
     representation before it is deleted, so the representation is freed exactly once -/
-theorem deleteRepWithCheck_spec {s : State} (hw : WF s) (v : Nat)
+theorem deleteRepWithCheck_spec {s : State} (hw : WF s) (v : Nat) (hnm : v < anonBase)
     (he : (deleteRepWithCheck v s).err = false) :
     WF (deleteRepWithCheck v s) ∧
       (∀ r, repOf s v = some r → (deleteRepWithCheck v s).reps r = none) ∧
@@ -363,7 +373,7 @@ theorem deleteRepWithCheck_spec {s : State} (hw : WF s) (v : Nat)
       obtain ⟨hC1, hI1⟩ := repDisconnect_spec hI r he1
       have hw1 : WF (repDisconnect r s) := wf_casc hC1 hw hI1
       have hv1 : repOf (repDisconnect r s) v = some r := by
-        simp only [repOf, repDisconnect_slot hI hv he1]; exact hv
+        simp only [repOf, repDisconnect_slot hI hv hnm he1]; exact hv
       obtain ⟨R1, hR1⟩ := hI1.repAlive v r hv1
       obtain ⟨hI2, horq⟩ := inv_unhold hI1 hv1
       have hR2 : ((repDisconnect r s).modSlot v fun V => { V with rep := none }).reps r = some R1 := by
@@ -410,12 +420,12 @@ theorem deleteRepWithCheck_spec {s : State} (hw : WF s) (v : Nat)
       have he1 : (repDisconnect r s).err = false := by simpa [ha] using he
       obtain ⟨-, hI1⟩ := repDisconnect_spec hI r he1
       have hv1 : repOf (repDisconnect r s) v = some r := by
-        simp only [repOf, repDisconnect_slot hI hv he1]; exact hv
+        simp only [repOf, repDisconnect_slot hI hv hnm he1]; exact hv
       obtain ⟨R1, hR1⟩ := hI1.repAlive v r hv1
       simp [hR1]
 
-theorem wf_deleteRepWithCheck {s : State} (hw : WF s) {v : Nat}
+theorem wf_deleteRepWithCheck {s : State} (hw : WF s) {v : Nat} (hnm : v < anonBase)
     (he : (deleteRepWithCheck v s).err = false) : WF (deleteRepWithCheck v s) :=
-  (deleteRepWithCheck_spec hw v he).1
+  (deleteRepWithCheck_spec hw v hnm he).1
 
 end Sigc.SlotG
